@@ -88,11 +88,12 @@ Leaf(kind, i) == CASE kind = "ustr" -> UStr(i) [] kind = "uint" -> UInt(i) [] ki
                    [] kind = "st" -> StObj(i) [] kind = "er" -> ErObj(i) [] kind = "nil" -> TNil(i)
                    [] kind = "safestr" -> SafeStr(i) [] kind = "safeint" -> SafeInt(i)
                    [] kind = "bool" -> TBool(i) [] kind = "float" -> TFloat(i) [] kind = "svsf" -> SVSF(i)
+                   [] kind = "rstr" -> TRStr(i, P(i)) [] kind = "gs" -> TObj(i, {"GS", "ST"}, <<>>, <<>>, P(i), <<>>)
                    [] kind = "rv" -> TRValue(i, UStr(i + 1)) [] kind = "rvsv" -> TRValue(i, SVStr(i + 1))
                    [] kind = "rvsafe" -> TRValue(i, SafeStr(i + 1)) [] kind = "rvslice" -> TRValue(i, TSlice(i + 1, <<UStr(i + 2), SVObj(i + 3)>>))
 LeafKinds  == {"ustr", "uint", "sv", "svstr", "reg", "sm", "st", "er", "nil", "safestr", "safeint", "bool", "float", "svsf",
-               "rv", "rvsv", "rvsafe", "rvslice"}
-QLeafKinds == {"ustr", "uint", "sv", "svstr", "reg", "nil", "safestr", "st", "svsf", "rvsv"}
+               "rv", "rvsv", "rvsafe", "rvslice", "rstr", "gs"}
+QLeafKinds == {"ustr", "uint", "sv", "svstr", "reg", "nil", "safestr", "st", "svsf", "rvsv", "rstr", "gs"}
 
 \* container shapes around two leaves a (ids 10..) and b (ids 20..); container ids 30..
 Shape(sh, a, b) ==
@@ -106,8 +107,10 @@ Shape(sh, a, b) ==
     [] sh = "ptr"     -> <<TPtrTo(33, TStruct(30, <<a, b>>, <<FALSE, TRUE>>))>>
     [] sh = "deep"    -> <<TSlice(30, <<TSlice(34, <<a>>), TStruct(35, <<b>>, <<FALSE>>)>>)>>
     [] sh = "iface"   -> <<TStruct(30, <<TSlice(34, <<a, TNil(36)>>), b>>, <<TRUE, FALSE>>)>>
-Shapes  == {"top", "two", "slice", "mapval", "mapkey", "structEE", "structEu", "ptr", "deep", "iface"}
-QShapes == {"top", "two", "slice", "mapval", "structEu", "deep"}
+    [] sh = "safestruct" -> <<TSafe(37, TStruct(30, <<a, b, UInt(38)>>, <<FALSE, FALSE, FALSE>>))>>
+    [] sh = "safeslice"  -> <<TSafe(37, TSlice(30, <<a, b>>))>>
+Shapes  == {"top", "two", "slice", "mapval", "mapkey", "structEE", "structEu", "ptr", "deep", "iface", "safestruct", "safeslice"}
+QShapes == {"top", "two", "slice", "mapval", "structEu", "deep", "safestruct"}
 
 F6v == <<37, 54, 118>>   Fm6v == <<37, 45, 54, 118>>   F06d == <<37, 48, 54, 100>>  Fx2 == <<37, 120>>
 Around(f) == <<A, 32>> \o f \o <<32, A>>
@@ -145,8 +148,13 @@ ClassyX(i) == {SVObj(i), SVStr(i), RegObj(i), SMObj(i), SafeStr(i), TRStr(i, <<A
                TObj(i, {"FM"}, <<>>, <<SWrite(P(702)), SDiscover, SSafeString(P(601)), SUnsafeString(P(703))>>, <<>>, <<>>),
                TObj(i, {"FM"}, <<>>, <<SDiscover, SPrint(<<SafeStr(i + 1), UStr(i + 3)>>)>>, <<>>, <<>>),               \* F3
                TObj(i, {"FM"}, <<>>, <<SDiscover, SPrintf(<<A>> \o Fd \o Fs, <<UInt(i + 1), SafeStr(i + 3)>>)>>, <<>>, <<>>), \* F3
-               TObj(i, {"ER", "SV"}, <<>>, <<>>, P(i), <<>>)}
-WrapKinds == {"U", "S", "US", "SU", "UUS", "SSU", "USU", "inU", "inS"}
+               TObj(i, {"ER", "SV"}, <<>>, <<>>, P(i), <<>>),
+               \* redactables whose content is opaque (secret under Unsafe): in typed and untyped containers
+               TSlice(i, <<TRStr(i + 1, P(i + 1) \o StartM \o P(i + 2) \o EndM), UInt(i + 3)>>),
+               TTSlice(i, <<TRStr(i + 1, P(i + 1) \o StartM \o P(i + 2) \o EndM), TRStr(i + 3, P(i + 3))>>),
+               TStruct(i, <<TRStr(i + 1, P(i + 1)), SafeStr(i + 2), UStr(i + 4)>>, <<FALSE, FALSE, FALSE>>),
+               TObj(i, {"GS", "ST"}, <<>>, <<>>, P(i), <<>>)}
+WrapKinds == {"U", "S", "US", "SU", "UUS", "SSU", "USU", "inU", "inS", "SstU", "SrvU", "UstS", "UrvS"}
 Wrapped(w, x) ==
   CASE w = "U"   -> TUnsafe(51, x)
     [] w = "S"   -> TSafe(51, x)
@@ -157,6 +165,11 @@ Wrapped(w, x) ==
     [] w = "USU" -> TUnsafe(53, TSafe(52, TUnsafe(51, x)))
     [] w = "inU" -> TUnsafe(53, TSlice(52, <<x, TSafe(54, TInt(55, 9))>>))
     [] w = "inS" -> TSafe(53, TSlice(52, <<x, TUnsafe(54, TInt(55, 9))>>))
+    \* the inner wrapper is met by the reflection walk (interface-typed field) or sits behind a reflect.Value
+    [] w = "SstU" -> TSafe(53, TStruct(52, <<TUnsafe(51, x), UStr(56)>>, <<FALSE, FALSE>>))
+    [] w = "SrvU" -> TSafe(53, TRValue(52, TUnsafe(51, x)))
+    [] w = "UstS" -> TUnsafe(53, TStruct(52, <<TSafe(51, x), UStr(56)>>, <<FALSE, FALSE>>))
+    [] w = "UrvS" -> TUnsafe(53, TRValue(52, TSafe(51, x)))
 WrapFormats == {Fv, Fs, Fd, FplusV, FsharpV, Fq, Fx, F6v, FT}
 WrapRoots == (PlainX(60) \cup ClassyX(60)) \X WrapKinds
 WrapExpand(r) == {Case("Sprintf", Around(f), <<Wrapped(r[2], r[1])>>, <<>>) : f \in WrapFormats}
@@ -176,7 +189,11 @@ BytePos(p, q) == {
   <<Fv \o q, <<TObj(1, {"ST"}, <<>>, <<>>, <<>>, <<TStr(2, p)>>)>>>>,
   <<Fd \o q, <<TStr(1, p)>>>>, <<Fv, <<TStr(1, p), TStr(2, q)>>>>,
   <<Fv, <<TMap(3, <<TStr(1, p), TStr(2, q)>>)>>>>, <<FplusV, <<TStruct(3, <<TStr(1, p), TStr(2, q)>>, <<FALSE, TRUE>>)>>>>,
-  <<Fv \o Fv, <<TRStr(1, StartM \o <<A>> \o EndM), TStr(2, p)>>>>, <<Fv \o Fv, <<TStr(2, p), TRStr(1, StartM \o <<A>> \o EndM \o <<NL>>)>>>>
+  <<Fv \o Fv, <<TRStr(1, StartM \o <<A>> \o EndM), TStr(2, p)>>>>,
+  \* text after a redactable operand: literal, a declared-safe string, a sibling field under Safe()
+  <<Fv \o q \o Fs, <<TRStr(1, StartM \o <<A>> \o EndM), TSafe(3, TStr(2, p))>>>>, <<q \o Fv \o p, <<TRBytes(1, <<A>> \o StartM \o <<A>> \o EndM)>>>>,
+  <<FplusV \o q, <<TSafe(4, TStruct(3, <<TRStr(1, StartM \o <<A>> \o EndM), TStr(2, p)>>, <<FALSE, FALSE>>))>>>>,
+  <<Fv \o q, <<TSlice(3, <<TRStr(1, <<A>>), TSafe(4, TStr(2, p))>>)>>>>, <<Fv \o Fv, <<TStr(2, p), TRStr(1, StartM \o <<A>> \o EndM \o <<NL>>)>>>>
 }
 \* longer payloads that force the escaper to rewrite AND end in a truncated marker
 SpicyPay == {<<NL, 226, 128>>, StartM \o <<226, 128>>, <<A, NL, 226>>, EndM \o <<226>>}
@@ -211,8 +228,9 @@ PanicExpand(pl) == UNION {UNION {{Case("Sprintf", Around(f), ts, <<>>) : f \in {
 \* ---- slice "errorf" (C15): HelperForErrorf with 0..3 %w directives and every operand class
 FwIdx1 == <<37, 91, 49, 93, 119>>   FwIdx2 == <<37, 91, 50, 93, 119>>   F5w == <<37, 53, 119>>
 FplusW == <<37, 43, 119>>           FsharpW == <<37, 35, 119>>          Fcolon == <<58>>
-ErrDirs  == {Fw, Fv, Fd, FwIdx1, FwIdx2, F5w, FplusW, FsharpW}
-ErrDirs2 == {Fw, Fv, FwIdx1, F5w}
+FstarW == <<37, 42, 119>>   FpstarW == <<37, 46, 42, 119>>
+ErrDirs  == {Fw, Fv, Fd, FwIdx1, FwIdx2, F5w, FplusW, FsharpW, FstarW, FpstarW}
+ErrDirs2 == {Fw, Fv, FwIdx1, F5w, FstarW}
 ErrFormats == ErrDirs \cup {x \o Fcolon \o y : x \in ErrDirs, y \in ErrDirs}
               \cup {x \o Fcolon \o y \o Fcolon \o z : x \in {Fw, Fv}, y \in {Fw, Fv}, z \in {Fw, Fv}}
 QErrFormats == ErrDirs2 \cup {x \o Fcolon \o y : x \in ErrDirs2, y \in ErrDirs2} \cup {Fw \o Fw \o Fw, FsharpW, FplusW}
@@ -232,7 +250,9 @@ ErrKinds  == {"er", "erfm", "ersf", "safe", "unsafe", "ernil", "nil", "int", "st
 QErrKinds == {"er", "erfm", "safe", "unsafe", "nil", "int", "str", "st"}
 ErrRoots == LET ks == IF Slice = "errorf" THEN ErrKinds ELSE QErrKinds IN
             {<<>>} \cup {<<ErrOperand(k1, 10)>> : k1 \in ks} \cup {<<ErrOperand(k1, 10), ErrOperand(k2, 20)>> : k1 \in ks, k2 \in ks}
-ErrExpand(ts) == {Case("Errorf", f, ts, <<>>) : f \in (IF Slice = "errorf" THEN ErrFormats ELSE QErrFormats)}
+\* (objects are named ints in the harness: '*' would read their handle as a width; kept out of star formats)
+ErrExpand(ts) == {Case("Errorf", f, ts, <<>>) : f \in {g \in (IF Slice = "errorf" THEN ErrFormats ELSE QErrFormats) :
+                                                          Contains(g, Star) => \A i \in 1..Len(ts) : ts[i].k # "obj"}}
 
 \* ---- slice "hook" (C17): error operands of every capability mix in every position, with a hook installed
 HookErr(kind, i) ==
@@ -259,7 +279,12 @@ HookPos(pos, e) ==
     [] pos = "fieldu"  -> <<TStruct(40, <<UInt(41), e>>, <<FALSE, TRUE>>)>>
     [] pos = "ptr"     -> <<TPtrTo(42, TStruct(40, <<e>>, <<FALSE>>))>>
     [] pos = "inUnsafe" -> <<TUnsafe(43, TSlice(40, <<e>>))>>
-HookPositions == {"top", "safe", "unsafe", "slice", "mapval", "mapkey", "fieldE", "fieldu", "ptr", "inUnsafe"}
+    \* under Unsafe(), after a sibling that is declared safe
+    [] pos = "inUnsafe2" -> <<TUnsafe(43, TSlice(40, <<SVObj(44), e>>))>>
+    [] pos = "inUnsafe3" -> <<TUnsafe(43, TStruct(40, <<SafeStr(44), e>>, <<FALSE, FALSE>>))>>
+    \* a statically typed slice of uint8-kinded errors: elements still go through method dispatch for v / d
+    [] pos = "u8slice"  -> <<TTSlice(40, <<TObj(7, {"ER", "U8"}, <<>>, <<>>, P(7), <<>>), TObj(8, {"ER", "U8"}, <<>>, <<>>, P(8), <<>>)>>)>>
+HookPositions == {"top", "safe", "unsafe", "slice", "mapval", "mapkey", "fieldE", "fieldu", "ptr", "inUnsafe", "inUnsafe2", "inUnsafe3", "u8slice"}
 HookRoots == HookKinds \X HookPositions
 HookExpand(r) == LET ts == HookPos(r[2], HookErr(r[1], 10)) IN
                  \* (two operands: a bad verb on nil, a bad verb on a string, then the error)
@@ -280,7 +305,13 @@ DThree  == Fv \o <<124>> \o Fv \o <<124>> \o Fd
 DNoVerb == Fv \o <<37>>               \* %v%
 DBang   == <<37, 33>> \o Fv           \* %!%v
 DPct    == <<37, 37>> \o Fv \o <<37, 37>>
-DirFormats == {DStar, DmStar, DpStar, DIdx21, DIdx3, DIdxW, DTwo, DThree, DNoVerb, DBang, DPct, Fv, <<A>>, FZ \o Fv}
+DIdx0   == <<37, 91, 48, 93, 118>>                          \* %[0]v
+DIdx0S  == <<37, 91, 48, 93, 42, 100>>                      \* %[0]*d
+DIdx0P  == <<37, 46, 91, 48, 93, 42, 100>>                  \* %.[0]*d
+DIdx10  == <<37, 91, 49, 93, 100, 32, 37, 91, 48, 93, 118>> \* %[1]d %[0]v
+DIdxSP  == <<37, 91, 49, 93, 42, 46, 50, 118>>              \* %[1]*.2v
+DirFormats == {DStar, DmStar, DpStar, DIdx21, DIdx3, DIdxW, DTwo, DThree, DNoVerb, DBang, DPct, Fv, <<A>>, FZ \o Fv,
+               DIdx0, DIdx0S, DIdx0P, DIdx10, DIdxSP}
 DirOperands == {UStr(10), UInt(10), SafeStr(10), SVObj(10), TNil(10), StObj(10), TInt(10, 6), TInt(10, -4), SafeInt(10), TRValue(10, UInt(11)), TUnsafe(10, UInt(11))}
 DirOperands2 == {UStr(20), TInt(20, 5), SafeStr(20), TNil(20), RegObj(20)}
 DirRoots == DirFormats
